@@ -1,6 +1,6 @@
 (* Extraction of the trie model for ocaml/trie/driver.ml.  ExtrOcamlBasic only.
    The hash parameter is instantiated with the Gallina Keccak-256. *)
-From AQ Require Import Lib.Bytes Lib.ExtractBase Lib.Keccak Rlp.RlpSpec Trie.MptSpec Trie.TrieModel Trie.SecureModel Trie.IterModel Import.DeriveShaCode.
+From AQ Require Import Lib.Bytes Lib.ExtractBase Lib.Keccak Rlp.RlpSpec Trie.MptSpec Trie.TrieModel Trie.SecureModel Trie.IterModel Trie.DbModel Import.DeriveShaCode.
 Require Extraction.
 Require Import ExtrOcamlBasic.
 
@@ -25,4 +25,4 @@ Definition k_iterate_from (t : trie) (d : db) (start : bytes) (fuel : nat) : res
 Extraction "../ocaml/trie/model.ml" base_anchor keccak256
   k_run_ops k_step init_state k_mpt_root k_verify k_decode hex_to_compact compact_to_hex keybytes_to_hex hex_to_keybytes
   k_sec_step sec_init k_derive_sha k_trie_hash k_it_new k_it_next k_iterate_from
-  it_hash it_parent it_leaf it_leaf_key it_leaf_blob it_error.
+  it_hash it_parent it_leaf it_leaf_key it_leaf_blob it_error tdb_commit tdb_node.
